@@ -86,8 +86,9 @@ type vfWOp struct {
 
 type vfTam struct {
 	Field string `json:"field"` // dotted JSON path of the leaf
-	Kind  string `json:"kind"`  // bitflip | truncate | nonhex | swap | type | remove | delta
+	Kind  string `json:"kind"`  // bitflip | tailflip | truncate | nonhex | swap | type | remove | delta
 	Arg   int    `json:"arg"`
+	Bit   int    `json:"bit,omitempty"` // added to the bit number, so that byte and bit positions are independent
 }
 
 type vfWProg struct {
@@ -887,6 +888,13 @@ func (e *vfEnv) step(i int, op *vfWOp) *vlib.Failure {
 			// An accepted tampered file. Fields the importer never reads (cipher, kdf, pubParams, cryptoKeyPubEnc,
 			// hdPath.Purpose/Coin) cannot change what is restored; the verdict is taken on the effect: the restored
 			// keystore must still be exactly the exported one, otherwise the tampering was accepted *with* effect.
+			if vfTamVerified[tampered] && op.Tam.Kind != "swap" {
+				// every byte of these fields is checked by the importer (scrypt salt, digest and cost parameters of the
+				// private master key; the sealed boxes of the private crypto key and of the HD master key): an altered
+				// one cannot pass unless a check was dropped, whatever the restored keystore looks like
+				return vlib.Failf("import:tamper-accepted:field="+tampered, "%s: tampered export (%s %s arg=%d bit=%d) was accepted although every byte of that field is verified on import",
+					where, op.Tam.Field, op.Tam.Kind, op.Tam.Arg, op.Tam.Bit)
+			}
 			ext, in := 0, 0
 			if am := w.kmc.managedKeystores[id]; am != nil {
 				ext, in = am.CountAddresses()
@@ -1163,6 +1171,9 @@ func vfRunWallet(p *vfWProg, c *vlib.Ctx, opt *vfOpt) (*vfEnv, *vlib.Failure) {
 var vfTamFields = []string{"remark", "crypto.cipher", "crypto.masterHDPrivKeyEnc", "crypto.kdf", "crypto.pubParams", "crypto.privParams",
 	"crypto.cryptoKeyPubEnc", "crypto.cryptoKeyPrivEnc", "hdPath.Purpose", "hdPath.Coin", "hdPath.Account", "hdPath.ExternalChildNum", "hdPath.InternalChildNum"}
 
+// fields of which the importer verifies every byte
+var vfTamVerified = map[string]bool{"crypto.privParams": true, "crypto.cryptoKeyPrivEnc": true, "crypto.masterHDPrivKeyEnc": true}
+
 func vfTamper(js []byte, t *vfTam, all []*vfExport) ([]byte, string, bool) {
 	var doc map[string]interface{}
 	dec := json.NewDecoder(bytes.NewReader(js))
@@ -1197,7 +1208,7 @@ func vfTamper(js []byte, t *vfTam, all []*vfExport) ([]byte, string, bool) {
 		default:
 			parent[leaf] = "x"
 		}
-	case "bitflip", "truncate", "nonhex":
+	case "bitflip", "tailflip", "truncate", "nonhex":
 		s, isStr := cur.(string)
 		if !isStr {
 			n, _ := cur.(json.Number)
@@ -1214,10 +1225,18 @@ func vfTamper(js []byte, t *vfTam, all []*vfExport) ([]byte, string, bool) {
 		case "bitflip":
 			pos := arg % len(bs)
 			if raw, err := hex.DecodeString(s); err == nil && len(raw) > 0 {
-				raw[arg%len(raw)] ^= 1 << uint(arg%8)
+				raw[arg%len(raw)] ^= 1 << uint((arg+t.Bit)%8)
 				bs = []byte(hex.EncodeToString(raw))
 			} else {
 				bs[pos] ^= 1
+			}
+		case "tailflip":
+			// the last 24 bytes of a hex field: the scrypt cost parameters of *Params, the end of a sealed box
+			if raw, err := hex.DecodeString(s); err == nil && len(raw) > 0 {
+				raw[len(raw)-1-arg%min(len(raw), 24)] ^= 1 << uint((arg/24+t.Bit)%8)
+				bs = []byte(hex.EncodeToString(raw))
+			} else {
+				bs[len(bs)-1] ^= 1
 			}
 		case "truncate":
 			bs = bs[:len(bs)-1-(arg%min(len(bs), 4))]
@@ -1441,8 +1460,8 @@ func vfGenWOp(t *rapid.T, cfg *vfGenCfg) vfWOp {
 		op.New = rapid.SampledFrom([]string{"auto", "auto", "auto", "auto", "auto", "", "same", "cur", "lit:" + vfPassPool[1], "pub"}).Draw(t, "xferNew")
 		if cfg.Tamper && rapid.IntRange(0, 2).Draw(t, "tamper") == 0 {
 			op.Tam = &vfTam{Field: rapid.SampledFrom(vfTamFields).Draw(t, "tamField"),
-				Kind: rapid.SampledFrom([]string{"bitflip", "bitflip", "truncate", "nonhex", "swap", "type", "remove", "delta"}).Draw(t, "tamKind"),
-				Arg:  rapid.IntRange(-40, 400).Draw(t, "tamArg")}
+				Kind: rapid.SampledFrom([]string{"bitflip", "bitflip", "tailflip", "truncate", "nonhex", "swap", "type", "remove", "delta"}).Draw(t, "tamKind"),
+				Arg:  rapid.IntRange(-40, 400).Draw(t, "tamArg"), Bit: rapid.IntRange(0, 7).Draw(t, "tamBit")}
 		}
 	case "import":
 		op.Ex = rapid.IntRange(0, 5).Draw(t, "ex")
@@ -1462,8 +1481,8 @@ func vfGenWOp(t *rapid.T, cfg *vfGenCfg) vfWOp {
 		}
 		if cfg.Tamper && rapid.IntRange(0, 2).Draw(t, "tamper") == 0 {
 			op.Tam = &vfTam{Field: rapid.SampledFrom(vfTamFields).Draw(t, "tamField"),
-				Kind: rapid.SampledFrom([]string{"bitflip", "bitflip", "truncate", "nonhex", "swap", "type", "remove", "delta"}).Draw(t, "tamKind"),
-				Arg:  rapid.IntRange(-40, 400).Draw(t, "tamArg")}
+				Kind: rapid.SampledFrom([]string{"bitflip", "bitflip", "tailflip", "truncate", "nonhex", "swap", "type", "remove", "delta"}).Draw(t, "tamKind"),
+				Arg:  rapid.IntRange(-40, 400).Draw(t, "tamArg"), Bit: rapid.IntRange(0, 7).Draw(t, "tamBit")}
 		}
 	case "unlock":
 		op.Pass = vfGenPrivSel(t, true, "unlockPass")
